@@ -438,13 +438,19 @@ pub struct World {
     /// early-drop cases whose "at most one further page request" verdict is still open
     pending: Vec<PendingDrop>,
     pub cases_run: usize,
+    /// some stream of this world was dropped early (its producer may still have a request in flight)
+    pub had_drop: bool,
 }
 
 struct PendingDrop {
     case: Case,
     run: i32,
+    /// log position when the case started
+    from: u64,
     /// log position right after the stream was dropped
     mark: u64,
+    /// the script still has pages the producer could ask for (a settle window is needed before judging)
+    open: bool,
 }
 
 #[derive(Clone, Debug)]
@@ -537,7 +543,7 @@ impl World {
                 .await?;
         }
         let prepared = session.prepare(STMT_PREPARED).await.map_err(|e| format!("prepare failed: {e}"))?;
-        Ok(World { cluster, session: Arc::new(session), shared, prepared, next_run: 1, pending: Vec::new(), cases_run: 0 })
+        Ok(World { cluster, session: Arc::new(session), shared, prepared, next_run: 1, pending: Vec::new(), cases_run: 0, had_drop: false })
     }
 
     pub async fn teardown(self) {
@@ -559,6 +565,9 @@ impl World {
         let run = self.next_run;
         self.next_run += 1;
         self.cases_run += 1;
+        if matches!(case.consumer, Consumer::DropAfter(_)) {
+            self.had_drop = true;
+        }
         let pages = case.split.len();
         {
             let mut g = self.shared.lock().unwrap();
@@ -766,7 +775,8 @@ impl World {
                 complaints.push(mk("frames:wrong-paging-state", format!("page requests by page index up to the early drop after {} rows: [{}]; must be a prefix of the full sequence reaching page {need_page}; {requires}", k.unwrap(), describe_pages(&seen_pages))));
             }
             if let Some(mark) = drop_mark {
-                self.pending.push(PendingDrop { case: case.clone(), run, mark });
+                // if the mock has already seen every request of the script, nothing the script could still answer is outstanding
+                self.pending.push(PendingDrop { case: case.clone(), run, from, mark, open: seen_pages.len() < exp.requests.len() });
             }
         }
         // where retries went (informational; node choice is not part of C07)
@@ -800,8 +810,37 @@ impl World {
         }
     }
 
+    /// The page requests of a run with what the mock answered: `n<node>/c<conn> page<p> -> <reply>`.
+    pub fn trace_of(&self, run: i32) -> String {
+        let log = self.cluster.log();
+        let mut v = Vec::new();
+        for e in self.frames_of(run, 0) {
+            let reply = log
+                .iter()
+                .skip(e.seq as usize)
+                .find_map(|x| match &x.kind {
+                    LogKind::Sent { request_seq: Some(s), response, .. } if *s == e.seq => Some(response.response.summary()),
+                    _ => None,
+                })
+                .unwrap_or_else(|| "(no complete reply)".into());
+            v.push(format!("#{} n{}/c{} page{} -> {}", e.seq, e.node, e.conn, self.page_of(run, &e).map(|p| p.to_string()).unwrap_or_else(|| "?".into()), reply));
+        }
+        if std::env::var("C07_DEBUG").is_ok() {
+            let fr = self.frames_of(run, 0);
+            if let (Some(a), Some(b)) = (fr.first(), fr.last()) {
+                for e in log.iter().skip(a.seq as usize).take((b.seq - a.seq) as usize + 4) {
+                    v.push(format!("\n    {}", e.describe()));
+                }
+            }
+        }
+        v.join("; ")
+    }
+
     pub fn has_pending(&self) -> bool {
         !self.pending.is_empty()
+    }
+    pub fn has_open_pending(&self) -> bool {
+        self.pending.iter().any(|p| p.open)
     }
 
     /// Judge the early-drop cases run so far: after the drop the mock may see at most one further page (retries of
@@ -815,14 +854,15 @@ impl World {
             let exp = expect(&p.case);
             let Consumer::DropAfter(k) = p.case.consumer else { continue };
             let after: BTreeSet<u64> = self.frames_of(p.run, p.mark).iter().filter_map(|e| self.page_of(p.run, e)).collect();
-            let all: Vec<u64> = self.frames_of(p.run, 0).iter().filter_map(|e| self.page_of(p.run, e)).collect();
+            let all_frames = self.frames_of(p.run, p.from);
+            let all: Vec<u64> = all_frames.iter().filter_map(|e| self.page_of(p.run, e)).collect();
             let key = |s: &str| format!("{}:{}", p.case.mode.name(), s);
             let all_us: Vec<usize> = all.iter().map(|x| *x as usize).collect();
-            let unknown = self.frames_of(p.run, 0).len() != all.len();
+            let unknown = all_frames.len() != all.len();
             if unknown || !exp.requests.starts_with(&all_us) {
                 out.push(Complaint {
                     key: key("frames:wrong-paging-state"),
-                    text: format!("page requests by page index around an early drop after {k} rows: {all:?}{}; must be a prefix of {:?}", if unknown { " plus requests with a paging state the server never returned" } else { "" }, exp.requests),
+                    text: format!("page requests by page index around an early drop after {k} rows: {all:?}{}; must be a prefix of {:?}; frames: {}", if unknown { " plus requests with a paging state the server never returned" } else { "" }, exp.requests, self.trace_of(p.run)),
                     case: p.case.json(),
                 });
             }
@@ -1044,6 +1084,12 @@ pub async fn run_batch(cases: Arc<Vec<Case>>, jobs: usize, stop_after: usize) ->
                 if i >= cases.len() {
                     break;
                 }
+                // a connection reset must not hit a connection that still carries the in-flight request of an earlier,
+                // dropped stream of the same world (that producer would see a broken connection and retry)
+                if cases[i].has_reset() && world.as_ref().map(|w| w.had_drop).unwrap_or(false) {
+                    let w = world.take().unwrap();
+                    finish_world(w, &out).await;
+                }
                 if world.is_none() {
                     match World::setup().await {
                         Ok(w) => {
@@ -1096,7 +1142,9 @@ pub async fn run_batch(cases: Arc<Vec<Case>>, jobs: usize, stop_after: usize) ->
 
 async fn finish_world(mut w: World, out: &Arc<Mutex<BatchResult>>) {
     if w.has_pending() {
-        w.settle().await;
+        if w.has_open_pending() {
+            w.settle().await;
+        }
         let (c, n) = w.judge_drops();
         let mut g = out.lock().unwrap();
         g.complaints.extend(c);
